@@ -18,8 +18,9 @@ func init() {
 		in := fs.String("in", "", "cases ndjson")
 		out := fs.String("out", "", "trace ndjson")
 		par := fs.Int("par", 4, "parallel executions")
+		rounds := fs.Int("rounds", 30, "rounds of a concurrent group")
 		_ = fs.Parse(args)
-		return surf.RunCases(*in, *out, *par)
+		return surf.RunCases(*in, *out, *par, *rounds)
 	}
 	commands["surf-random"] = func(args []string) error {
 		fs := flag.NewFlagSet("surf-random", flag.ExitOnError)
